@@ -29,9 +29,9 @@ BASES = {
 DISTS_QUICK = ['empty', 'single_low', 'single_mid', 'last', 'lognormal', 'twopeaks', 'subunit']
 DISTS_THOROUGH = ['empty', 'single_low', 'single_mid', 'last', 'lognormal', 'subunit']
 
-OPS_QUICK = (['add1', 'add3', 'half', 'double', 'fifth', 'cut', 'wide', 'adjF', 'adjT', 'backup', 'revert', 'reset',
+OPS_QUICK = (['add1', 'add3', 'half', 'double', 'fifth', 'cut', 'wide', 'lowmin', 'raisemin', 'adjF', 'adjT', 'backup', 'revert', 'reset',
               'load_a', 'load_b'] + ['upd_' + d for d in DISTS_QUICK])
-OPS_THOROUGH = (['add1', 'add3', 'half', 'double', 'fifth', 'cut', 'wide', 'adjF', 'adjT', 'backup', 'revert', 'reset',
+OPS_THOROUGH = (['add1', 'add3', 'half', 'double', 'fifth', 'cut', 'wide', 'lowmin', 'raisemin', 'adjF', 'adjT', 'backup', 'revert', 'reset',
                  'load_a'] + ['upd_' + d for d in DISTS_THOROUGH])
 
 
@@ -102,7 +102,7 @@ def apply(st, op):
     if op == 'add1' or op == 'add3':
         p.addSizeClasses(1 if op == 'add1' else 3)
         info['kind'] = 'extend'
-    elif op in ('half', 'double', 'fifth', 'cut', 'wide'):
+    elif op in ('half', 'double', 'fifth', 'cut', 'wide', 'lowmin', 'raisemin'):
         if op == 'half':
             args = (p.PSDbounds[0], p.PSDbounds[-1], max(1, p.bins // 2))
         elif op == 'double':
@@ -113,9 +113,15 @@ def apply(st, op):
             pop = np.nonzero(p.PSD > 0)[0]
             top = p.PSDbounds[pop[-1] + 1] if len(pop) else p.PSDbounds[-1]
             args = (p.PSDbounds[0], top, p.bins)
+        elif op == 'lowmin':
+            # the lower end of the grid moves away from the constructor value (a re-mesh may state any minimum)
+            args = (0.5 * p.PSDbounds[0], p.PSDbounds[-1], p.bins)
+        elif op == 'raisemin':
+            args = (p.PSDbounds[1], p.PSDbounds[-1], p.bins)
         else:
             args = (p.PSDbounds[0], 2 * p.PSDbounds[-1], p.bins)
         p.changeSizeClasses(*args)
+        info['stated'] = (float(args[0]), float(args[1]), int(args[2]))
         info['kind'] = 'remesh'
         st.backup_valid = False      # changeSizeClasses goes through reset(False), which wipes the backup
     elif op in ('adjF', 'adjT'):
@@ -265,6 +271,12 @@ def transition_oracles(st, op, info, hist):
                 bad('extend-changed-populations', 'existing populations changed')
             if np.any(np.asarray(p.PSD[nb:]) != 0):
                 bad('extend-new-classes-populated', repr(p.PSD[nb:]))
+    if kind == 'remesh' and info.get('stated'):
+        lo, hi, nb_ = info['stated']
+        hi = max(10 * lo, hi)      # constructor and re-mesh alike keep at least a decade between the two ends
+        if p.bins != nb_ or abs(p.PSDbounds[0] - lo) > REL * hi or abs(p.PSDbounds[-1] - hi) > REL * hi or p.min != p.PSDbounds[0] or p.max != p.PSDbounds[-1]:
+            bad('remesh-not-as-stated', 'asked for [%r, %r] with %d classes, got [%r, %r] with %d (min=%r max=%r)'
+                % (lo, hi, nb_, p.PSDbounds[0], p.PSDbounds[-1], p.bins, p.min, p.max), detail=op)
     if kind == 'remesh' or info.get('remeshed'):
         popl = np.nonzero(pre['psd'] > 0)[0]
         covered = True
